@@ -96,6 +96,12 @@ func recordDiffs(st *famStats, class, alg string, doc []byte, desc string, diffs
 				continue
 			}
 			key := "c14n:" + alg + ":" + c
+			if c == missingUsed {
+				// keyed by place: here the apex is canonicalised with its document ancestors
+				// in reach, so a visibly used prefix left unbound is the canonicaliser's doing
+				// (not that of a caller handing over a parentless copy, cf. explainDigest)
+				key += ":apex-in-document"
+			}
 			run.Outcome("c14n-differs:" + alg + ":" + c)
 			report(key, fmt.Sprintf("SerializeCanonical differs from %s canonical XML (%s) on a %s document: %s", algName(alg), c, class, desc),
 				len(doc)+len(d.Ref), map[string]any{"part": "A", "class": class, "algorithm": algName(alg), "family": st.Family, "case": desc, "document": string(doc), "diff": d})
@@ -108,13 +114,19 @@ func recordDiffs(st *famStats, class, alg string, doc []byte, desc string, diffs
 // (attribute order by namespace URI cannot be computed without the binding) is
 // a symptom of that one; report the root cause only.
 func rootCause(classes []string) []string {
+	var out []string
 	for _, c := range classes {
-		if c == "nsdecl-missing:visibly-used" {
-			return []string{c}
+		if strings.HasPrefix(c, missingUsed) {
+			out = append(out, c)
 		}
+	}
+	if out != nil {
+		return out
 	}
 	return classes
 }
+
+const missingUsed = "nsdecl-missing:visibly-used"
 
 func algName(a string) string {
 	if a == "exc" {
@@ -133,6 +145,11 @@ func newStats(family, class, alg string, n int) *famStats {
 
 func partA(pool *jvmPool) {
 	manifestClass(pool)
+	if os.Getenv("C19_VARIANTS") != "" {
+		run.Capped("development run: selected manifest variants only (C19_VARIANTS)")
+		run.Set("partA_families", aStats)
+		return
+	}
 	opcClass(pool)
 	appxClass(pool)
 	// ---- the general family ----
@@ -274,6 +291,23 @@ func manifestVariants(src []byte, visit func(desc string, doc []byte)) {
 			}
 		}
 	}
+	// one binding, declared where it is not used, reaching several sibling branches
+	// that use it, use it further down or re-declare it, in every order (xmlgen.ScopeForests)
+	maxLen, maxWrap := scopeForestBounds()
+	if _, err := xmlgen.ScopeForests(src, maxLen, maxWrap, os.Getenv("C19_SCOPE_UNDECLARE") != "", func(f xmlgen.ScopeForest) {
+		visit("scope-forest: "+f.Desc, f.Doc)
+	}); err != nil {
+		fatal("scope forests: %v", err)
+	}
+}
+
+// scopeForestBounds: longest item sequence and deepest wrapping of the
+// scope-forest family.
+func scopeForestBounds() (maxLen, maxWrap int) {
+	if run.Thorough() {
+		return 3, 2
+	}
+	return 2, 1
 }
 
 type variant struct {
@@ -287,8 +321,13 @@ func manifestClass(pool *jvmPool) {
 		fatal("%v", err)
 	}
 	var vs []variant
-	manifestVariants(src, func(desc string, doc []byte) { vs = append(vs, variant{desc, doc}) })
-	st := newStats("clickonce-manifest/fixture+single-edits, signed by the real pipeline (rsaA, sha256)", "manifest", "exc", len(vs))
+	only := os.Getenv("C19_VARIANTS") // development: run the variants whose description contains this
+	manifestVariants(src, func(desc string, doc []byte) {
+		if only == "" || strings.Contains(desc, only) {
+			vs = append(vs, variant{desc, doc})
+		}
+	})
+	st := newStats("clickonce-manifest/fixture+single-edits+scope-forests, signed by the real pipeline (rsaA, sha256)", "manifest", "exc", len(vs))
 	spki := spkiOf("rsaA")
 	var signed, unsignable, validated int64
 	pool.each(len(vs), timeUp, func(j *jvm, i int) {
@@ -382,6 +421,12 @@ func explainDigest(j *jvm, kind string, signed []byte) []string {
 			continue
 		}
 		for _, c := range classify(mine[i], unb64(f[i])) {
+			if c == missingUsed && !(kind == "manifest" && i == 2) {
+				// keyed by place: the license Reference (form 2 of a manifest) is digested from
+				// a parentless copy made by the signer; every other form is a subtree of the
+				// document as written, canonicalised with its ancestors in reach
+				c += ":" + []string{"document-reference", "signed-info", "license-reference", "license-signed-info"}[i]
+			}
 			set[c] = true
 		}
 	}
